@@ -29,6 +29,7 @@ def install(I):
     for _n in ("match", "search", "fullmatch", "sub", "findall"):
         t[f"re.{_n}"] = _re_function(_n)
     t["unicodedata.normalize"] = b_unicode_normalize
+    install_functional(t)
     t["dict.fromkeys"] = b_dict_fromkeys
     t["str.maketrans"] = b_str_maketrans
     t["copy.deepcopy"] = b_deepcopy
@@ -56,6 +57,7 @@ def install(I):
     t["numpy.diff"] = n_diff
     t["numpy.linalg.norm"] = n_norm
     t["numpy.ones"] = n_ones
+    t["numpy.fromiter"] = n_fromiter
     t["numpy.vstack"] = n_vstack
     t["scipy.linalg.inv"] = n_inv
     t["numpy.linalg.inv"] = n_inv
@@ -68,6 +70,144 @@ def install(I):
     t["contextlib.contextmanager"] = lambda I, fv, a, k, n: a[0] if a else fv
     t["logging.getLogger"] = lambda I, fv, a, k, n: Unk("logger", "logger")
     del t["math.pi"]
+
+
+# ------------------------------------------------------------------ functools / itertools / operator
+def install_functional(t):
+    def partial(I, fv, args, kwargs, node):
+        return PartialV("partial", args[0], tuple(args[1:]), tuple(sorted(_kwclean(kwargs).items())))
+
+    def itemgetter(I, fv, args, kwargs, node):
+        return PartialV("itemgetter", None, tuple(args), ())
+
+    def attrgetter(I, fv, args, kwargs, node):
+        if any(I.strval(a) is None for a in args):
+            return I.ext_call(fv, args, kwargs, node)
+        return PartialV("attrgetter", None, tuple(args), ())
+
+    def methodcaller(I, fv, args, kwargs, node):
+        if not args or I.strval(args[0]) is None:
+            return I.ext_call(fv, args, kwargs, node)
+        return PartialV("methodcaller", args[0], tuple(args[1:]), tuple(sorted(_kwclean(kwargs).items())))
+
+    def chain(I, fv, args, kwargs, node):
+        out = []
+        for a in args:
+            out.extend(I.iterate(a, node))
+        return IterV(tuple(out))
+
+    def chain_from_iterable(I, fv, args, kwargs, node):
+        out = []
+        for a in I.iterate(args[0], node):
+            out.extend(I.iterate(a, node))
+        return IterV(tuple(out))
+
+    def pairwise(I, fv, args, kwargs, node):
+        items = I.iterate(args[0], node)
+        return IterV(tuple(Tup((a, b)) for a, b in zip(items, items[1:])))
+
+    def islice(I, fv, args, kwargs, node):
+        if isinstance(I.force(args[0]), (Unk, Str)):
+            return I.ext_call(fv, args, kwargs, node)
+        items = I.iterate(args[0], node)
+        bounds = []
+        for a in args[1:]:
+            a = I.force(a)
+            if isinstance(a, Const) and a.v is None:
+                bounds.append(None)
+            elif I.const_int(a) is not None:
+                bounds.append(I.const_int(a))
+            else:
+                return I.ext_call(fv, args, kwargs, node)
+        return IterV(tuple(items[slice(*bounds)]))
+
+    def accumulate(I, fv, args, kwargs, node):
+        if isinstance(I.force(args[0]), (Unk, Str)):
+            return I.ext_call(fv, args, kwargs, node)
+        items = I.iterate(args[0], node)
+        kw = _kwclean(kwargs)
+        func = args[1] if len(args) > 1 else kw.get("func")
+        if func is not None and isinstance(I.force(func), Const) and I.force(func).v is None:
+            func = None
+        out = []
+        initial = kw.get("initial")
+        if initial is not None and not (isinstance(I.force(initial), Const) and I.force(initial).v is None):
+            out.append(initial)
+        for x in items:
+            if not out:
+                out.append(x)
+            elif func is None:
+                out.append(I.binop(out[-1], ast.Add(), x, node))
+            else:
+                out.append(I.call(func, [out[-1], x], {}, node))
+        return IterV(tuple(out))
+
+    def starmap(I, fv, args, kwargs, node):
+        if isinstance(I.force(args[1]), (Unk, Str)):
+            return I.ext_call(fv, args, kwargs, node)
+        return IterV(tuple(I.call(args[0], I.iterate(x, node), {}, node) for x in I.iterate(args[1], node)))
+
+    def reduce(I, fv, args, kwargs, node):
+        if len(args) < 2 or isinstance(I.force(args[1]), (Unk, Str)):
+            return I.ext_call(fv, args, kwargs, node)       # a fold over a sequence of unknown length stays a recorded call
+        items = I.iterate(args[1], node)
+        if len(args) > 2:
+            acc = args[2]
+        elif items:
+            acc, items = items[0], items[1:]
+        else:
+            I.raise_("TypeError", node, note="reduce() of empty iterable with no initial value")
+        for x in items:
+            acc = I.call(args[0], [acc, x], {}, node)
+        return acc
+
+    def binary(op):
+        return lambda I, fv, args, kwargs, node: I.binop(args[0], op, args[1], node)
+
+    def comparison(op):
+        return lambda I, fv, args, kwargs, node: Const(I.compare(args[0], op, args[1], node))
+
+    def neg(I, fv, args, kwargs, node):
+        return I.binop(Num(Poly.const(0), True), ast.Sub(), args[0], node)
+
+    def lru_cache(I, fv, args, kwargs, node):
+        # lru_cache(maxsize=..)(f), lru_cache(128)(f) and the bare decorator form lru_cache(f)
+        if args and isinstance(I.force(args[0]), (FuncV, Closure, PartialV, MemoV, BoundBuiltin, ExtV, ClassV)):
+            return MemoV(args[0])
+        return ExtV("functools.cache")
+
+    def import_module(I, fv, args, kwargs, node):
+        name = I.strval(I.force(args[0])) if args else None
+        if name is None or name.startswith(".") or I.P.modules.get(name) is not None:
+            return I.ext_call(fv, args, kwargs, node)
+        return ExtV(name)                        # a module outside the package, named by a constant
+
+    t["__import__"] = import_module
+    t["importlib.import_module"] = import_module
+    t["functools.lru_cache"] = lru_cache
+    t["functools.cache"] = lambda I, fv, args, kwargs, node: MemoV(args[0]) if args else fv
+    t["functools.partial"] = partial
+    t["functools.reduce"] = reduce
+    t["operator.itemgetter"] = itemgetter
+    t["operator.attrgetter"] = attrgetter
+    t["operator.methodcaller"] = methodcaller
+    t["itertools.chain"] = chain
+    t["itertools.chain.from_iterable"] = chain_from_iterable
+    t["itertools.pairwise"] = pairwise
+    t["itertools.islice"] = islice
+    t["itertools.accumulate"] = accumulate
+    t["itertools.starmap"] = starmap
+    for name, op in (("add", ast.Add()), ("sub", ast.Sub()), ("mul", ast.Mult()), ("truediv", ast.Div()), ("matmul", ast.MatMult()),
+                     ("floordiv", ast.FloorDiv()), ("mod", ast.Mod()), ("pow", ast.Pow())):
+        t[f"operator.{name}"] = binary(op)
+    for name, op in (("eq", ast.Eq()), ("ne", ast.NotEq()), ("lt", ast.Lt()), ("le", ast.LtE()), ("gt", ast.Gt()), ("ge", ast.GtE()),
+                     ("is_", ast.Is()), ("is_not", ast.IsNot())):
+        t[f"operator.{name}"] = comparison(op)
+    t["operator.contains"] = lambda I, fv, args, kwargs, node: Const(I.contains(args[0], args[1], node))
+    t["operator.not_"] = lambda I, fv, args, kwargs, node: Const(not I.truth(args[0]))
+    t["operator.truth"] = lambda I, fv, args, kwargs, node: Const(I.truth(args[0]))
+    t["operator.neg"] = neg
+    t["operator.getitem"] = lambda I, fv, args, kwargs, node: I.getitem(args[0], args[1], node)
 
 
 # ------------------------------------------------------------------ helpers
@@ -1116,6 +1256,28 @@ def n_ones(I, fv, args, kwargs, node):
     if n is not None and n <= 64:
         return I.alloc(AList([TRUE if isbool else Const(1.0) for _ in range(n)]))
     return Unk(f"ones({I.tag(args[0]) if args else ''})", "array")
+
+
+def n_fromiter(I, fv, args, kwargs, node):
+    """numpy.fromiter(iterable, dtype[, count]): the items of an enumerable iterable as a 1-D array."""
+    src = I.force(args[0]) if args else NONE
+    if isinstance(src, (Unk, Str)) or not args:
+        return I.ext_call(fv, args, kwargs, node)
+    kw = _kwclean(kwargs)
+    items = I.iterate(src, node)
+    count = kw.get("count", args[2] if len(args) > 2 else None)
+    if count is not None:
+        c = I.const_int(count)
+        if c is None:
+            return I.ext_call(fv, args, kwargs, node)
+        if c >= 0:
+            if c > len(items):
+                I.raise_("ValueError", node, note="iterator too short")
+            items = items[:c]
+    isbool = "bool" in I.tag(kw.get("dtype", args[1] if len(args) > 1 else NONE))
+    if isbool:
+        items = [Const(I.truth(x)) for x in items]
+    return I.alloc(AList(list(items)))
 
 
 def n_vstack(I, fv, args, kwargs, node):
